@@ -860,6 +860,22 @@ func (c *Chain) ExportAt(height int64) (state []byte, err error) {
 	return ex.AppState, nil
 }
 
+// ExportZeroHeight runs `und export --for-zero-height` for the head: a second application object on the same database
+// (the preparation for a zero-height genesis writes into that object's check state only, nothing is committed).
+func (c *Chain) ExportZeroHeight() (state []byte, err error) {
+	defer func() {
+		if r := recover(); r != nil {
+			err = fmt.Errorf("export panic: %v", r)
+		}
+	}()
+	a := app.NewApp(log.NewNopLogger(), c.db, nil, true, c.appOptions(), c.baseOptions()...)
+	ex, err := a.ExportAppStateAndValidators(true, nil, nil)
+	if err != nil {
+		return nil, err
+	}
+	return ex.AppState, nil
+}
+
 // ModuleAddr returns the address of a module account.
 func ModuleAddr(name string) sdk.AccAddress { return authtypes.NewModuleAddress(name) }
 
